@@ -32,7 +32,7 @@ Definition probe_expected (raw : list N) (dq : bool) : option (list N) :=
   let q := if dq then 34 else 39 in
   match read_quoted q (q :: raw ++ [q]) with
   | Some (v, []) =>
-      let txt := utf8_encode (css_display (pref_dquotes (mkStr v (if dq then QDouble else QSingle)))) in
+      let txt := utf8_encode (display_q (pref_dquotes (mkStr v (if dq then QDouble else QSingle)))) in
       Some (into_buffer Expanded (mkData [] [IRule [same_leaf [97]] [IProp [98] (same_leaf txt)]]))
   | _ => None
   end.
@@ -46,21 +46,6 @@ Definition corr (c : case) : N :=
       | Some _, _ => 0
       end
   end.
-
-(* known class F36: a private-use character (printed as a hex escape WITHOUT a terminating
-   space) directly followed by a hex digit or a space: since the reader decodes escapes
-   (rsass 4637bd2) the following character is taken into / eaten by the escape.
-   c_src is UTF-8: U+E000..U+F8FF are EE xx xx and EF 80..A3 xx. *)
-Definition hexish (c : N) : bool :=
-  is_ascii_digit c || ((97 <=? c) && (c <=? 102)) || ((65 <=? c) && (c <=? 70)) || (c =? 32).
-Fixpoint pua_then_hex (x : list N) : bool :=
-  match x with
-  | b0 :: ((b1 :: _ :: n :: _) as r) =>
-      (((b0 =? 238) || ((b0 =? 239) && (b1 <=? 163))) && (128 <=? b1) && (hexish n || (n =? 92))) || pua_then_hex r
-  | _ :: r => pua_then_hex r
-  | [] => false
-  end.
-Definition known_quote (c : case) : bool := pua_then_hex (c_src c).
 
 (* known class: an identifier with a hex escape for a Latin-1 symbol that is not a letter
    (U+00A1..U+00BF without the letters ª µ º, and × ÷): rsass prints the character raw,
@@ -97,4 +82,4 @@ Fixpoint has_control_escape (x : list N) : bool :=
   end.
 
 Definition run (c : case) : list N :=
-  [ corr c; b2n (clause_roundtrip c); b2n (known_quote c); b2n (has_symbol_escape (c_src c)); b2n (has_control_escape (c_src c)) ].
+  [ corr c; b2n (clause_roundtrip c); b2n (has_symbol_escape (c_src c)); b2n (has_control_escape (c_src c)) ].
